@@ -14,6 +14,7 @@ import (
 	"iter"
 	"sort"
 	"strings"
+	"reflect"
 	"sync"
 	"sync/atomic"
 	"testing"
@@ -25,6 +26,7 @@ import (
 	"github.com/thanos-io/thanos/pkg/store/storepb/prompb"
 
 	"verif/vlib"
+	"verif/vsync"
 )
 
 type Case struct {
@@ -196,8 +198,45 @@ type outcome[T any] struct {
 	v    T
 	pan  any
 	hung bool
+	site string // loop that made no progress ("" = the wall-clock safety net fired)
 	took time.Duration
 }
+
+type noProgress struct{ site string }
+
+// installTicks installs the process-wide loop-tick handler: per call (identified by the section slice the
+// instrumented function works on) and per loop it counts iterations since the enclosing loop last advanced.
+func installTicks() {
+	type counter struct {
+		mu sync.Mutex
+		m  map[string]int64
+	}
+	var calls sync.Map // data pointer of the section slice -> *counter
+	vsync.SetLoopTickHandler(func(site string, key any) {
+		v := reflect.ValueOf(key)
+		if v.Kind() != reflect.Slice || v.Len() == 0 {
+			return
+		}
+		p := v.Pointer()
+		ci, _ := calls.LoadOrStore(p, &counter{m: map[string]int64{}})
+		c := ci.(*counter)
+		c.mu.Lock()
+		defer c.mu.Unlock()
+		for k := range c.m {
+			if k > site { // loops are numbered in source order: inner loops have larger indices
+				delete(c.m, k)
+			}
+		}
+		c.m[site]++
+		if c.m[site] > tickBound {
+			calls.Delete(p)
+			panic(noProgress{site})
+		}
+	})
+}
+
+// tickBound > RF x sections for every configuration of the space (<= 20 nodes x 1000 sections, RF <= 20).
+const tickBound = 20 * 1000 * 20
 
 // guarded runs f in its own goroutine and gives up waiting after `allowance`. A goroutine that is still
 // running then is abandoned (it cannot be killed); it ends with the test process.
@@ -206,9 +245,19 @@ func guarded[T any](allow time.Duration, f func() T) outcome[T] {
 	t0 := time.Now()
 	go func() {
 		var o outcome[T]
+		// Deterministic non-termination verdict: hashring.go is instrumented with a tick at the top of every
+		// loop body of calculateSectionReplicas. While one loop keeps iterating without its enclosing loop
+		// advancing, a terminating run needs at most RF x sections iterations (every full turn around the ring
+		// must add a replica, otherwise the loop's state repeats forever); tickBound is above that for every
+		// configuration of the space, so exceeding it proves the loop never ends.
 		defer func() {
 			if p := recover(); p != nil {
-				o.pan = p
+				if np, ok := p.(noProgress); ok {
+					o.hung = true
+					o.site = np.site
+				} else {
+					o.pan = p
+				}
 			}
 			o.took = time.Since(t0)
 			ch <- o
@@ -541,9 +590,11 @@ func TestCheck(t *testing.T) {
 		"then GetN for every replica index on the built ring; part shard: every such layout with <= %d endpoints whose base ring is constructible x RF x shard size 1..n x "+
 		"zone awareness on/off x %d tenants, first GetN of the tenant (builds the tenant's sub-ring). Non-trivial = ketama with >= 2 zones (sub-ring zones for part shard) and RF >= 2, "+
 		"i.e. the even-AZ-spread rule of calculateSectionReplicas takes part in the construction", maxN, maxShardN, nTenants))
-	r.Assume("non-termination is decided by a generous real-time allowance (20 s in the serial phases where terminating calls take milliseconds, 120 s while all cores are busy, against about 1 s for the slowest terminating call); there is no countable seam in calculateSectionReplicas and /repo is not instrumented",
+	r.Assume("non-termination inside calculateSectionReplicas is decided deterministically by loop ticks (a loop iterating more than RF x sections times without its enclosing loop advancing can never end); any other hang would only be caught by the safety net: non-termination is decided by a generous real-time allowance (20 s in the serial phases where terminating calls take milliseconds, 120 s while all cores are busy, against about 1 s for the slowest terminating call); there is no countable seam in calculateSectionReplicas and /repo is not instrumented",
 		"after the first configuration of a class does not return, the remaining configurations of that class are not run (recorded as a cap); classes are decided from the configuration alone",
 		"RF = 0 (not a valid replication factor) and hashrings without endpoints are outside the space")
+	installTicks()
+	defer vsync.SetLoopTickHandler(nil)
 	k := &checker{r: r, hungCls: map[string]bool{}}
 	defer func() {
 		r.Set("slowest_terminating_guarded_call_ms", float64(k.maxTook.Load())/1000)
